@@ -153,6 +153,10 @@ func encodeRequest(sc *Scenario) (*encodedRequest, error) {
 			q = append(q, "connect=v1")
 		}
 		enc.Method, enc.Target = "GET", mi.Path+"?"+strings.Join(q, "&")
+		if c.GetVersionHeader {
+			// the protocol version may (also) be announced in the header, as on POST
+			add("Connect-Protocol-Version", "1")
+		}
 		if len(c.Accept) > 0 {
 			add("Accept-Encoding", strings.Join(c.Accept, ", "))
 		}
